@@ -238,6 +238,9 @@ func removeValidatorFromList(validatorList []Validator, index int) (r []Validato
   ensures  last-moved-into-hole: 0 <= index && index < len(validatorList) - 1 ==> r[index] == old(validatorList[len(validatorList)-1])
   ensures  others-kept: forall k :: 0 <= k && k < len(validatorList) - 1 && k != index ==> validatorList[k] == old(validatorList[k])
   ensures  unchanged-when-out-of-range: (index < 0 || index >= len(validatorList)) ==> r == validatorList
+  // [C13/C16] one step of a partition (spec fns kstr/distinctKeys: C13 block at the end of the file)
+  ensures  each-kept-from-its-place-or-the-end: forall k :: 0 <= k && k < len(r) ==> r[idf(k)] == old(validatorList[idf(k)]) || r[idf(k)] == old(validatorList[idf(len(validatorList)-1)])
+  ensures  keys-stay-distinct-removed-key-gone: old(distinctKeys(validatorList)) ==> distinctKeys(r) && (0 <= index && index < len(validatorList) ==> forall k :: 0 <= k && k < len(r) ==> kstr(r[idf(k)]) != kstr(old(validatorList[idf(index)])))
   assigns  elems(validatorList)
 @*/
 
@@ -274,6 +277,8 @@ func removeValidatorsFromList(validatorList []Validator, validatorsToRemove []Va
   ensures  kept-were-in-list: forall k :: 0 <= k && k < len(res) ==> exists j :: 0 <= j && j < len(validatorList) && res[k] == validatorList[j]
   ensures  removed-were-in-list: forall k :: 0 <= k && k < len(removed) ==> exists j :: 0 <= j && j < len(validatorList) && removed[k] == validatorList[j]
   ensures  removed-were-requested: forall k :: 0 <= k && k < len(removed) ==> exists j :: 0 <= j && j < len(validatorsToRemove) && bytesEq(removed[k].PubKey(), validatorsToRemove[j].PubKey())
+  // [C13/C16] a list without duplicate keys is split into two lists without duplicate keys that share no key
+  ensures  partition-keeps-keys-distinct: old(distinctKeys(validatorList)) ==> distinctKeys(res) && distinctKeys(removed) && disjointKeys(res, removed)
   assigns  nothing
 
 loop 1
@@ -289,6 +294,10 @@ loop 1
   invariant forall k :: 0 <= k && k < len(resultedList) ==> exists j :: 0 <= j && j < len(validatorList) && resultedList[k] == validatorList[j]
   invariant forall k :: 0 <= k && k < len(removed) ==> exists j :: 0 <= j && j < len(validatorList) && removed[k] == validatorList[j]
   invariant forall k :: 0 <= k && k < len(removed) ==> exists j :: 0 <= j && j < len(validatorsToRemove) && bytesEq(removed[k].PubKey(), validatorsToRemove[j].PubKey())
+  // [C13/C16]
+  invariant partition: old(distinctKeys(validatorList)) ==> distinctKeys(resultedList) && distinctKeys(removed) && disjointKeys(resultedList, removed)
+  // (a further clause "unless the cap stopped the loop, no key of a request stays in the list" was proved with two more invariants
+  //  under keyNoFaithful(), but made the C12 obligations of this loop slow and flaky under load; it was taken out again)
 
 loop 2
   invariant -1 <= i && i < len(resultedList)
@@ -322,6 +331,9 @@ func removeNodesFromShard(existingNodes map[uint32][]Validator, leavingNodes []V
   ensures  still-not-nil: allNotNil(rest) && mapNotNil(existingNodes)
   ensures  shard-keeps-only-its-validators: forall k :: 0 <= k && k < len(existingNodes[shard]) ==> exists j :: 0 <= j && j < old(mlen(existingNodes, shard)) && existingNodes[shard][k] == old(existingNodes[shard][j])
   ensures  rest-were-leaving: forall k :: 0 <= k && k < len(rest) ==> exists j :: 0 <= j && j < len(leavingNodes) && rest[k] == leavingNodes[j]
+  // [C13/C16] no key twice before => no key twice afterwards, in the shard and in the list of validators that still want to leave
+  ensures  shard-stays-duplicate-free: old(has(existingNodes, shard) && distinctKeys(existingNodes[shard])) ==> distinctKeys(existingNodes[shard])
+  ensures  leaving-stays-duplicate-free: old(distinctKeys(leavingNodes)) ==> distinctKeys(rest)
   assigns  mapof(existingNodes)
 @*/
 
@@ -357,9 +369,13 @@ func moveMaxNumNodesToMap(destination map[uint32][]Validator, source map[uint32]
   ensures  error-iff-no-destination: err != nil <==> destination == nil
   ensures  moved-not-lost: forall s uint32 :: mlen(destination, s) + mlen(source, s) == old(mlen(destination, s) + mlen(source, s))
   ensures  destination-grows-at-most-to-size: forall s uint32 :: mlen(destination, s) >= old(mlen(destination, s)) && mlen(destination, s) <= max(old(mlen(destination, s)), capOf(s, numMeta, numShard))
+  // [C13] order-free: every shard is either untouched or refilled by the amount computed from its own two entry lists
+  ensures  each-shard-untouched-or-refilled: forall s uint32 :: (mlen(destination, s) == old(mlen(destination, s)) && mlen(source, s) == old(mlen(source, s))) || (mlen(destination, s) == old(mlen(destination, s)) + old(min(mlen(source, s), max(0, capOf(s, numMeta, numShard) - mlen(destination, s)))) && mlen(source, s) == old(mlen(source, s)) - old(min(mlen(source, s), max(0, capOf(s, numMeta, numShard) - mlen(destination, s)))))
 
 loop 1
   invariant destination != nil
+  // [C13]
+  invariant per-shard-closed-form: forall s uint32 :: (mlen(destination, s) == old(mlen(destination, s)) && mlen(source, s) == old(mlen(source, s))) || (mlen(destination, s) == old(mlen(destination, s)) + old(min(mlen(source, s), max(0, capOf(s, numMeta, numShard) - mlen(destination, s)))) && mlen(source, s) == old(mlen(source, s)) - old(min(mlen(source, s), max(0, capOf(s, numMeta, numShard) - mlen(destination, s)))))
   invariant forall s uint32 :: mlen(destination, s) + mlen(source, s) == old(mlen(destination, s) + mlen(source, s))
   invariant forall s uint32 :: mlen(destination, s) >= old(mlen(destination, s)) && mlen(destination, s) <= max(old(mlen(destination, s)), capOf(s, numMeta, numShard))
 @*/
@@ -367,10 +383,14 @@ loop 1
 /*@
 func getMaxListSize(lists map[uint32][]Validator) (r int)
   ensures  not-negative: r >= 0
+  // [C13] commutative accumulator: the result is 0 or the length of one of the lists (that it is >= every length needs exhaustion: not provable)
+  ensures  is-a-list-length-or-zero: r == 0 || exists s uint32 :: has(lists, s) && r == len(lists[s])
   assigns  nothing
 
 loop 1
   invariant maxSize >= 0
+  // [C13]
+  invariant is-a-list-length-or-zero: maxSize == 0 || exists s uint32 :: has(lists, s) && maxSize == len(lists[s])
 
 // slice bounds validators[indexValidators:indexValidators+toMove] and the returned rest
 func equalizeValidatorsLists(destLists map[uint32][]Validator, validators []Validator) (rest []Validator)
@@ -400,4 +420,217 @@ lemma shard-keeps-minimum-size
   concl initial-budget-is-the-surplus: err0 == nil && n0 == e + w - minSize
   concl eligible-at-least-minimum: len(rest) + need >= minSize
   concl refill-available: need <= len(wait)
+@*/
+
+// ---- C13: validator reshuffling is deterministic (hashValidatorShuffler.go, validatorDistributor.go) ----
+// Method: a map `range` visits keys in an arbitrary order in the engine; a result proved equal to a closed expression of the inputs
+// is therefore independent of the iteration order. List helpers are characterised as partitions of duplicate-free lists.
+/*@
+// kstr(v): an UNINTERPRETED numbering of validators by public key (no axioms). keyNoFaithful() says that the numbering identifies exactly the
+// validators with equal public keys (what bytes.Equal(a.PubKey(), b.PubKey()) compares); such a numbering exists (number the key strings).
+// Clauses without keyNoFaithful() are proved for EVERY numbering, hence for a faithful one, where distinctKeys means "no public key twice".
+// (Comparing numbers instead of strings keeps byte arrays and array extensionality out of the quantified facts.)
+spec fn kstr(v Validator) int
+spec fn keyNoFaithful() bool = forall x Validator, y Validator :: kstr(x) == kstr(y) <==> str(x.PubKey()) == str(y.PubKey())
+// idf is the identity; indexing through it gives the two-variable facts below a trigger that only fires on the indexes the proof asks for
+// (without it the solvers instantiate them on every pair of index terms: tens of thousands of instances per query)
+spec fn idf(k int) int
+  axiom idf(k) == k
+spec fn distinctKeys(l []Validator) bool = forall a, b :: 0 <= a && a < b && b < len(l) ==> kstr(l[idf(a)]) != kstr(l[idf(b)])
+spec fn disjointKeys(l []Validator, m []Validator) bool = forall a, b :: 0 <= a && a < len(l) && 0 <= b && b < len(m) ==> kstr(l[idf(a)]) != kstr(m[idf(b)])
+
+// every shard of the copy holds a fresh list with the same validators in the same order
+func copyValidatorMap(validatorsMap map[uint32][]Validator) (r map[uint32][]Validator)
+  ensures  fresh-map: fresh(r) && r != nil
+  ensures  only-shards-of-the-input: forall s uint32 :: has(r, s) ==> has(validatorsMap, s)
+  ensures  same-lists: forall s uint32, k int :: has(r, s) ==> len(r[s]) == len(validatorsMap[s]) && (0 <= k && k < len(r[s]) ==> r[s][k] == validatorsMap[s][k])
+  ensures  lists-are-fresh: forall s uint32 :: has(r, s) ==> fresh(r[s])
+  ensures  input-untouched: forall s uint32 :: has(validatorsMap, s) == old(has(validatorsMap, s)) && validatorsMap[s] == old(validatorsMap[s])
+  assigns  nothing
+  // representation fact (every slice stored in a map is allocated), needed because values read under a quantifier carry no well-formedness
+  requires lists-allocated: forall s uint32 :: has(validatorsMap, s) ==> allocated(validatorsMap[s])
+
+loop 1
+  invariant fresh(result) && result != nil
+  invariant forall s uint32 :: has(validatorsMap, s) == old(has(validatorsMap, s)) && validatorsMap[s] == old(validatorsMap[s])
+  invariant forall s uint32 :: has(validatorsMap, s) ==> allocated(validatorsMap[s])
+  invariant forall s uint32 :: has(result, s) ==> has(validatorsMap, s)
+  invariant forall s uint32 :: has(result, s) ==> fresh(result[s]) && len(result[s]) == len(validatorsMap[s])
+  invariant forall s uint32, k int :: has(result, s) && 0 <= k && k < len(result[s]) ==> result[s][k] == validatorsMap[s][k]
+
+// a validator with the key pk is searched shard by shard (map order): the reported shard holds the key.
+// NOT provable here: `!found ==> the key is in no shard` (the engine's map range has no exhaustion notion).
+spec fn keyInShard(m map[uint32][]Validator, s uint32, pk []byte) bool = has(m, s) && exists k :: 0 <= k && k < len(m[s]) && str(m[s][k].PubKey()) == str(pk)
+func searchInMap(validatorMap map[uint32][]Validator, pk []byte) (found bool, shard uint32)
+  requires validators-not-nil: mapNotNil(validatorMap)
+  ensures  found-in-reported-shard: found ==> keyInShard(validatorMap, shard, pk)
+  ensures  zero-shard-when-not-found: !found ==> shard == 0
+  assigns  nothing
+
+loop 1
+  invariant 0 <= 0      // nothing is carried from one shard to the next
+
+loop 2
+  invariant -1 <= rangeindex && (rangeindex < len(validatorsInShard) || rangeindex == -1)
+
+// determinism of the search: when the key sits in at most one shard, every map order reports that shard
+// (lemma variables cannot have a map type: the map is taken from a configuration)
+lemma search-reports-the-only-shard
+  vars cfg *epochNodesConfig, pk []byte, s0 uint32
+  hyp  key-in-one-shard-only: forall s uint32 :: keyInShard(cfg.eligibleMap, s, pk) ==> s == s0
+  call f1, s1 = searchInMap(cfg.eligibleMap, pk)
+  call f2, s2 = searchInMap(cfg.eligibleMap, pk)
+  concl same-answer-when-found: (f1 ==> s1 == s0) && (f2 ==> s2 == s0)
+@*/
+
+/*@
+// Every shard is, whatever the map order, in one of two states that depend on that shard's entry lists only: untouched, or the whole
+// source list appended (in its order) behind the destination list and the source list emptied.
+// (No `assigns`: the append may write into spare capacity of the destination's backing array; "every shard of source ends in the
+//  second state" is not provable: no exhaustion notion for map ranges.)
+spec fn shardUntouched(d map[uint32][]Validator, s map[uint32][]Validator, k uint32) bool = has(d, k) == old(has(d, k)) && has(s, k) == old(has(s, k)) && d[k] == old(d[k]) && s[k] == old(s[k])
+spec fn shardMoved(d map[uint32][]Validator, s map[uint32][]Validator, k uint32) bool = old(has(s, k)) && has(s, k) && has(d, k) && len(s[k]) == 0 && len(d[k]) == old(mlen(d, k)) + old(len(s[k]))
+func moveNodesToMap(destination map[uint32][]Validator, source map[uint32][]Validator) (err error)
+  requires distinct-maps: destination != source
+  requires source-map-not-nil: source != nil
+  ensures  error-iff-no-destination: err != nil <==> destination == nil
+  ensures  nothing-done-on-error: err != nil ==> forall k uint32 :: shardUntouched(destination, source, k)
+  ensures  each-shard-untouched-or-moved-whole: forall k uint32 :: shardUntouched(destination, source, k) || shardMoved(destination, source, k)
+  ensures  moved-not-lost: forall k uint32 :: mlen(destination, k) + mlen(source, k) == old(mlen(destination, k) + mlen(source, k))
+
+loop 1
+  invariant destination != nil
+  invariant forall k uint32 :: shardUntouched(destination, source, k) || shardMoved(destination, source, k)
+
+func (vd *IntraShardValidatorDistributor) DistributeValidators(destination map[uint32][]Validator, source map[uint32][]Validator, rnd []byte, balanced bool) (err error)
+  requires distinct-maps: destination != source
+  requires source-map-not-nil: source != nil
+  ensures  error-iff-no-destination: err != nil <==> destination == nil
+  ensures  each-shard-untouched-or-moved-whole: forall k uint32 :: shardUntouched(destination, source, k) || shardMoved(destination, source, k)
+
+// one step of every removal loop (removeValidatorsFromList, removeDupplicates): taking the validator at index i out of a list without
+// duplicate keys leaves a list without duplicate keys that no longer holds the removed key, and nobody else is lost
+lemma swap-remove-is-a-partition-step
+  vars l []Validator, i int, v0 Validator, n0 int
+  hyp  no-key-twice: distinctKeys(l)
+  hyp  index-in-list: 0 <= i && i < len(l) && v0 == l[i] && n0 == len(l)
+  call r = removeValidatorFromList(l, i)
+  concl one-less: len(r) == n0 - 1
+  concl still-no-key-twice: distinctKeys(r)
+  concl removed-key-is-gone: forall a :: 0 <= a && a < len(r) ==> kstr(r[a]) != kstr(v0)
+
+// first step of UpdateNodeLists: the additional leaving list loses every validator that is also in the unstake leaving list
+func removeDupplicates(unstake []Validator, additionalLeaving []Validator) (r []Validator)
+  requires validators-not-nil: allNotNil(unstake) && allNotNil(additionalLeaving)
+  ensures  fresh-and-not-longer: fresh(r) && len(r) <= len(additionalLeaving)
+  ensures  stays-duplicate-free: old(distinctKeys(additionalLeaving)) ==> distinctKeys(r)
+  ensures  no-unstake-key-left: keyNoFaithful() ==> forall a, j :: 0 <= a && a < len(r) && 0 <= j && j < len(unstake) ==> kstr(r[idf(a)]) != kstr(unstake[idf(j)])
+  assigns  nothing
+
+loop 1
+  invariant -1 <= rangeindex && (rangeindex < len(unstake) || rangeindex == -1)
+  invariant fresh(additionalCopy) && len(additionalCopy) <= len(additionalLeaving) && allNotNil(additionalCopy)
+  invariant allNotNil(unstake) && forall k :: 0 <= k && k < len(unstake) ==> unstake[k] == old(unstake[k])
+  invariant old(distinctKeys(additionalLeaving)) ==> distinctKeys(additionalCopy)
+  invariant keyNoFaithful() ==> forall a, j :: 0 <= a && a < len(additionalCopy) && 0 <= j && j <= rangeindex ==> kstr(additionalCopy[idf(a)]) != kstr(unstake[idf(j)])
+
+loop 2
+  invariant -1 <= i && i < len(additionalCopy) && 0 <= rangeindex + 1 && rangeindex + 1 < len(unstake)
+  invariant fresh(additionalCopy) && len(additionalCopy) <= len(additionalLeaving) && allNotNil(additionalCopy)
+  invariant allNotNil(unstake) && forall k :: 0 <= k && k < len(unstake) ==> unstake[k] == old(unstake[k])
+  invariant old(distinctKeys(additionalLeaving)) ==> distinctKeys(additionalCopy)
+  invariant keyNoFaithful() ==> (forall a, j :: 0 <= a && a < len(additionalCopy) && 0 <= j && j <= rangeindex ==> kstr(additionalCopy[idf(a)]) != kstr(unstake[idf(j)])) && (forall a :: i < a && a < len(additionalCopy) ==> kstr(additionalCopy[idf(a)]) != kstr(unstake[rangeindex+1]))
+
+// last step of shuffleNodes:  actualLeaving, _ := removeValidatorsFromList(allLeaving, stillRemaining, len(stillRemaining)).
+// With no key twice among the leaving validators, the list reported as Leaving and the part taken out of it (the validators that still
+// remain) share no key, their lengths add up, and each has no key twice.
+lemma leaving-and-still-remaining-are-disjoint
+  vars allLeaving []Validator, still []Validator
+  hyp  no-key-twice: distinctKeys(allLeaving) && allNotNil(allLeaving) && allNotNil(still)
+  call actual, dropped = removeValidatorsFromList(allLeaving, still, len(still))
+  concl split: len(actual) + len(dropped) == len(allLeaving)
+  concl both-duplicate-free: distinctKeys(actual) && distinctKeys(dropped)
+  concl leaving-shares-no-key-with-the-part-taken-out: disjointKeys(actual, dropped)
+@*/
+
+/*@
+// surplus(e, w, s, ..): how many validators shard s holds above its minimum (what computeMinNumberOfNodes returns)
+spec fn surplus(e map[uint32][]Validator, w map[uint32][]Validator, s uint32, minMeta int, minShard int) int = max(0, mlen(e, s) + mlen(w, s) - minOf(s, minMeta, minShard))
+
+// Two map ranges, both order-free: each iteration writes only the slot of its own shard, and the value written is a closed expression
+// of that shard's lists (invariants `per-shard-closed-form`): a slot is either untouched or holds that value, whatever the order.
+// (That every shard IS visited is not provable in the engine: no exhaustion notion for map ranges.)
+func removeLeavingNodes(eligible map[uint32][]Validator, waiting map[uint32][]Validator, numToRemove map[uint32]int, stillRemainingInLeaving []Validator, minNodesMeta int, minNodesPerShard int) (e map[uint32][]Validator, w map[uint32][]Validator, rest []Validator)
+  requires maps-given: eligible != nil && waiting != nil && numToRemove != nil && eligible != waiting
+  requires minimums-in-range: 0 <= minNodesMeta && minNodesMeta <= 4294967295 && 0 <= minNodesPerShard && minNodesPerShard <= 4294967295
+  requires budgets-not-negative: forall s uint32 :: nval(numToRemove, s) >= 0
+  requires validators-not-nil: allNotNil(stillRemainingInLeaving) && mapNotNil(eligible) && mapNotNil(waiting)
+  ensures  same-maps: e == eligible && w == waiting
+  ensures  lists-only-shrink: forall s uint32 :: mlen(eligible, s) <= old(mlen(eligible, s)) && mlen(waiting, s) <= old(mlen(waiting, s))
+  ensures  waiting-gives-at-most-the-surplus: forall s uint32 :: old(mlen(waiting, s)) - mlen(waiting, s) <= old(surplus(eligible, waiting, s, minNodesMeta, minNodesPerShard))
+  ensures  budget-only-goes-down: forall s uint32 :: 0 <= nval(numToRemove, s) && nval(numToRemove, s) <= old(nval(numToRemove, s))
+  ensures  eligible-gives-at-most-the-budget: forall s uint32 :: old(mlen(eligible, s)) - mlen(eligible, s) <= old(nval(numToRemove, s))
+  ensures  rest-not-longer: len(rest) <= len(stillRemainingInLeaving)
+  assigns  mapof(eligible), mapof(waiting), mapof(numToRemove)
+
+loop 1
+  invariant fresh(maxNumToRemoveFromWaiting) && maxNumToRemoveFromWaiting != nil
+  invariant budgets-untouched: forall s uint32 :: has(numToRemove, s) == old(has(numToRemove, s)) && numToRemove[s] == old(numToRemove[s])
+  invariant per-shard-closed-form: forall s uint32 :: has(maxNumToRemoveFromWaiting, s) ==> maxNumToRemoveFromWaiting[s] == surplus(eligible, waiting, s, minNodesMeta, minNodesPerShard)
+
+loop 2
+  invariant per-shard-closed-form: forall s uint32 :: has(numToRemove, s) == old(has(numToRemove, s)) && (numToRemove[s] == old(numToRemove[s]) || numToRemove[s] == min(old(numToRemove[s]), surplus(eligible, waiting, s, minNodesMeta, minNodesPerShard)))
+@*/
+
+// ---- C16: after an epoch change each validator has exactly one place (indexHashedNodesCoordinator.go) ----
+/*@
+func (v *validator) PubKey() (r []byte)
+  requires v != nil
+  ensures  the-stored-key: r == v.pubKey
+  assigns  nothing
+
+// A leaving validator is put back where the previous epoch held it, so that the shuffler decides whether it may leave.
+// `consistent-with-previous-epoch` is the hypothesis of the property: the validator info names the shard where the previous configuration
+// holds the key. Without it the code writes  eligibleMap[shardId] = append(eligibleMap[currentValidatorShardId], v)  with
+// shardId != currentValidatorShardId: the list of shard `shardId` is REPLACED by a copy of another shard's list (validators of shardId lost,
+// validators of currentValidatorShardId present in two shards) - then `other-shards-untouched` below fails.
+spec fn shardListsUntouched(e map[uint32][]Validator, w map[uint32][]Validator, s uint32) bool = has(e, s) == old(has(e, s)) && e[s] == old(e[s]) && has(w, s) == old(has(w, s)) && w[s] == old(w[s])
+func (ihgs *indexHashedNodesCoordinator) addValidatorToPreviousMap(previousEpochConfig *epochNodesConfig, eligibleMap map[uint32][]Validator, waitingMap map[uint32][]Validator, currentValidator *validator, currentValidatorShardId uint32)
+  requires maps-given: eligibleMap != nil && waitingMap != nil && eligibleMap != waitingMap && currentValidator != nil
+  // representation facts: stored lists are allocated; the eligible and the waiting list of the shard do not share a backing array
+  requires own-lists-allocated-and-separate: (has(eligibleMap, currentValidatorShardId) ==> allocated(eligibleMap[currentValidatorShardId])) && (has(waitingMap, currentValidatorShardId) ==> allocated(waitingMap[currentValidatorShardId])) && (has(eligibleMap, currentValidatorShardId) && has(waitingMap, currentValidatorShardId) ==> base(eligibleMap[currentValidatorShardId]) != base(waitingMap[currentValidatorShardId]) || (len(eligibleMap[currentValidatorShardId]) == 0 && cap(eligibleMap[currentValidatorShardId]) == 0) || (len(waitingMap[currentValidatorShardId]) == 0 && cap(waitingMap[currentValidatorShardId]) == 0))
+  requires previous-configuration-when-fix-active: flagSet(ihgs.flagWaitingListFix) ==> previousEpochConfig != nil && mapNotNil(previousEpochConfig.eligibleMap) && mapNotNil(previousEpochConfig.waitingMap)
+  requires consistent-with-previous-epoch: flagSet(ihgs.flagWaitingListFix) ==> forall s uint32 :: keyInShard(previousEpochConfig.eligibleMap, s, currentValidator.pubKey) || keyInShard(previousEpochConfig.waitingMap, s, currentValidator.pubKey) ==> s == currentValidatorShardId
+  ensures  other-shards-untouched: forall s uint32 :: s != currentValidatorShardId ==> shardListsUntouched(eligibleMap, waitingMap, s)
+  ensures  own-shard-gets-it-at-most-once: mlen(eligibleMap, currentValidatorShardId) >= old(mlen(eligibleMap, currentValidatorShardId)) && mlen(waitingMap, currentValidatorShardId) >= old(mlen(waitingMap, currentValidatorShardId)) && mlen(eligibleMap, currentValidatorShardId) + mlen(waitingMap, currentValidatorShardId) <= old(mlen(eligibleMap, currentValidatorShardId) + mlen(waitingMap, currentValidatorShardId)) + 1
+  ensures  eligible-without-the-fix: !flagSet(ihgs.flagWaitingListFix) ==> mlen(eligibleMap, currentValidatorShardId) == old(mlen(eligibleMap, currentValidatorShardId)) + 1
+  ensures  nobody-pushed-out: (forall k :: 0 <= k && k < old(mlen(eligibleMap, currentValidatorShardId)) ==> eligibleMap[currentValidatorShardId][k] == old(eligibleMap[currentValidatorShardId][k])) && (forall k :: 0 <= k && k < old(mlen(waitingMap, currentValidatorShardId)) ==> waitingMap[currentValidatorShardId][k] == old(waitingMap[currentValidatorShardId][k]))
+  ensures  placed-last: (mlen(eligibleMap, currentValidatorShardId) > old(mlen(eligibleMap, currentValidatorShardId)) ==> eligibleMap[currentValidatorShardId][len(eligibleMap[currentValidatorShardId]) - 1] == iface(currentValidator)) && (mlen(waitingMap, currentValidatorShardId) > old(mlen(waitingMap, currentValidatorShardId)) ==> waitingMap[currentValidatorShardId][len(waitingMap[currentValidatorShardId]) - 1] == iface(currentValidator))
+
+// every entry of the index names a shard whose eligible or waiting list holds that very validator, and is filed under the validator's key
+spec fn listHolds(m map[uint32][]Validator, s uint32, v Validator) bool = has(m, s) && exists i :: 0 <= i && i < len(m[s]) && m[s][i] == v
+spec fn entryPlaced(e *validatorWithShardID, key string, el map[uint32][]Validator, wt map[uint32][]Validator) bool = e != nil && allocated(e) && str(e.validator.PubKey()) == key && (listHolds(el, e.shardID, e.validator) || listHolds(wt, e.shardID, e.validator))
+func (ihgs *indexHashedNodesCoordinator) createPublicKeyToValidatorMap(eligible map[uint32][]Validator, waiting map[uint32][]Validator) (r map[string]*validatorWithShardID)
+  requires validators-not-nil: mapNotNil(eligible) && mapNotNil(waiting)
+  ensures  every-entry-points-to-a-real-place: fresh(r) && forall key string :: has(r, key) ==> entryPlaced(r[key], key, eligible, waiting)
+  assigns  nothing
+
+loop 1
+  invariant fresh(publicKeyToValidatorMap) && forall key string :: has(publicKeyToValidatorMap, key) ==> entryPlaced(publicKeyToValidatorMap[key], key, eligible, waiting)
+loop 2
+  invariant 0 <= i && i <= len(shardEligible) && has(eligible, shardId) && eligible[shardId] == shardEligible
+  invariant fresh(publicKeyToValidatorMap) && forall key string :: has(publicKeyToValidatorMap, key) ==> entryPlaced(publicKeyToValidatorMap[key], key, eligible, waiting)
+loop 3
+  invariant fresh(publicKeyToValidatorMap) && forall key string :: has(publicKeyToValidatorMap, key) ==> entryPlaced(publicKeyToValidatorMap[key], key, eligible, waiting)
+loop 4
+  invariant 0 <= i && i <= len(shardWaiting) && has(waiting, shardId) && waiting[shardId] == shardWaiting
+  invariant fresh(publicKeyToValidatorMap) && forall key string :: has(publicKeyToValidatorMap, key) ==> entryPlaced(publicKeyToValidatorMap[key], key, eligible, waiting)
+
+// the lookup by public key answers from the index publicKeyToValidatorMap (filled by fillPublicKeyToValidatorMap)
+func (ihgs *indexHashedNodesCoordinator) GetValidatorWithPublicKey(publicKey []byte) (v Validator, shard uint32, err error)
+  requires indexed-entry-not-nil: has(ihgs.publicKeyToValidatorMap, str(publicKey)) ==> ihgs.publicKeyToValidatorMap[str(publicKey)] != nil
+  ensures  rejects-empty-key: len(publicKey) == 0 ==> err != nil && isNil(v)
+  ensures  unknown-key: !has(ihgs.publicKeyToValidatorMap, str(publicKey)) ==> err != nil && isNil(v)
+  ensures  reports-the-indexed-place: len(publicKey) > 0 && has(ihgs.publicKeyToValidatorMap, str(publicKey)) ==> err == nil && v == ihgs.publicKeyToValidatorMap[str(publicKey)].validator && shard == ihgs.publicKeyToValidatorMap[str(publicKey)].shardID
+  assigns  nothing
 @*/
